@@ -76,6 +76,7 @@ macro_rules! c11_new {
     };
 }
 //@ id: c11_new_f64_l3
+//@ besteffort: yes
 //@ prop: C11
 //@ tier: thorough
 //@ cap: 1500
@@ -109,6 +110,7 @@ c11_new!(c11_new_f32_l4, f32, 4, f32::MIN_POSITIVE);
 //@ assumes: libm::sqrt by (class) contract
 c11_new!(c11_new_f64_l4, f64, 4, f64::MIN_POSITIVE);
 //@ id: c11_new_f64_l2
+//@ besteffort: yes
 //@ prop: C11
 //@ tier: thorough
 //@ cap: 900
@@ -161,6 +163,7 @@ macro_rules! c11_sample_beta {
     };
 }
 //@ id: c11_sample_beta_f32
+//@ besteffort: yes
 //@ prop: C11
 //@ tier: thorough
 //@ cap: 3600
